@@ -314,6 +314,7 @@ class Interp:
         self.index_checks = []     # (node, ok) subscripts whose index and axis both had a named space
         self.sub_axes = {}         # axis name -> axis name it is a prefix of (e.g. L -> Lmax)
         self.force_seeds = False
+        self.generic_dims = False  # treat `symbolic dimension == literal` as False (general position)
 
     # ---- events
     def event(self, kind, node, msg, **detail):
@@ -912,6 +913,13 @@ class Interp:
                                       (Num("i", space=right.space) if isinstance(right, Arr) else None), node, "in")
                 res = Num("b")
             else:
+                if isinstance(op, (ast.Eq, ast.NotEq)) and self.generic_dims and isinstance(left, Num) and isinstance(right, Num):
+                    for x, y in ((left, right), (right, left)):
+                        if x.dimof is not None and x.dimof.symbolic and x.const is None and isinstance(y.const, int) and y.dimof is None:
+                            res = Num("b", const=isinstance(op, ast.NotEq))   # a symbolic dimension in general position differs from a literal
+                    if res is not None and res.const is not None:
+                        left = right
+                        continue
                 if isinstance(op, (ast.Eq, ast.NotEq)):
                     self.check_same_space(left, right, node, "==")
                     if isinstance(left, (StrV, Num)) and isinstance(right, (StrV, Num)) and left.const is not None \
@@ -1440,14 +1448,24 @@ def _is_unit_slice(p):
 
 def _compatible_space(sp, ax, sub_axes=None):
     """sub(N) / sel(N) indices still index N; an index into a declared prefix axis (L of Lmax) indexes the larger axis"""
+    def parent(n):
+        if isinstance(n, str) and (n.startswith("sub(") or n.startswith("sel(")) and n.endswith(")"):
+            return n[4:-1]
+        return None
+
     def root(a):
         n = a.name
-        while isinstance(n, str) and (n.startswith("sub(") or n.startswith("sel(")) and n.endswith(")"):
-            n = n[4:-1]
+        while parent(n) is not None:
+            n = parent(n)
         return n
-    a, b = root(sp), root(ax)
-    if a == b:
-        return True
+    # an index into a sub-axis / selection of A is an index into A (and into any ancestor of the sub-axis), but an
+    # index into the whole of A is NOT an index into a sub-axis of A (sample ids vs positions in a batch)
+    n = sp.name
+    while n is not None:
+        if n == ax.name:
+            return True
+        n = parent(n)
+    a, b = root(sp), ax.name
     seen = set()
     while sub_axes and a in sub_axes and a not in seen:
         seen.add(a)
